@@ -448,3 +448,7 @@ for _p in SPECS:
                 SPECS[_p]["trusted_base"] = list(SPECS[_p]["trusted_base"]) + [_t]
 for _p in ("C04", "C11", "C13", "C18"):
     _need(_p, ["Model/Handler.v", "Proofs/HandlerInv.v", "Model/Limiter.v", "Proofs/Limiter.v", "Proofs/RecvHandler.v"])
+
+# routing-table level (kb monitor check_keyed): the record stored under an id is that node's own - a record of X stored
+# under P would have X's handshake verified as P's and X's requests delivered as coming from P
+SPECS["C02"]["harness"].append({"component": "kb", "args": ["--focus", "rec", "--prop", "C02"], "quick": 64, "thorough": 600, "correspondence": False})
